@@ -11,10 +11,11 @@ THEOREMS = [
     "GoaktVerif.C29.C29_holds",
     "GoaktVerif.C29.C29_oracle",
     "GoaktVerif.C29.C29_per_index",
+    "GoaktVerif.C29.C29_sequence",
 ]
 TIMEOUT = 900
 MANIFEST = {
-    "level_text": "Kernel-checked theorem over a model of the metadata path (client injectMessageMetadata / enrichContext: first value per header, keys as written; wire: one map per RemoteMessage inside a batch, or request-level metadata; server messageMetadata / extractContextWithPropagator: http.Header.Set, i.e. textproto.CanonicalMIMEHeaderKey, applied per message to the request-level context): for ALL single-valued header maps with distinct canonical keys and ALL batches (any list of messages of any callers) every message is delivered with exactly its own headers, keys in canonical MIME form (C29_holds, C29_per_index, C29_roundtrip); same for request-level exchanges (asks, synchronous tells). Tied to the code by a differential against a real actor system with remoting on loop-back TCP and a real remoteclient.Client (coalescing on), both with a recording ContextPropagator, concurrent callers with different header maps sharing batches; for asks the reply must answer its own request (RemoteBatchAsk in request order).",
+    "level_text": "Kernel-checked theorem over a model of the metadata path (client injectMessageMetadata / enrichContext: first value per header, keys as written; wire: one map per RemoteMessage inside a batch, or request-level metadata; server messageMetadata / extractContextWithPropagator: http.Header.Set, i.e. textproto.CanonicalMIMEHeaderKey, applied per message to the request-level context): for ALL single-valued header maps with distinct canonical keys and ALL batches (any list of messages of any callers) every message is delivered with exactly its own headers, keys in canonical MIME form (C29_holds, C29_per_index, C29_roundtrip); same for request-level exchanges (asks, synchronous tells). Tied to the code by a differential against a real actor system with remoting on loop-back TCP and a real remoteclient.Client (coalescing on), both with a recording ContextPropagator, concurrent callers with different header maps sharing batches, plus sequences of mixed request-level and per-message calls with shrinking key sets on one client (C29_sequence); for asks the reply must answer its own request (RemoteBatchAsk in request order).",
     "level_note": "partial only in its parameters: textproto.CanonicalMIMEHeaderKey is modelled for ASCII keys (Model.C29.canonKey, compared with net/http on every generated key by the differential); protobuf map transport and TCP are assumptions; Go map iteration order is irrelevant under the stated guard (distinct canonical keys) and is outside it (observation: keys equal up to case collapse, one value wins; multi-valued headers keep only the first value). Which messages share a batch is decided by the Go scheduler in the tie (not controlled); the theorem covers every batching.",
     "technique": "Lean 4 proof (list induction) over a functional model + model/implementation differential through a real two-sided remoting round trip",
 }
@@ -23,7 +24,7 @@ TRUSTED = [
     "protobuf map<string,string> round-trips keys and values unchanged; TCP",
     "the recording propagator of the harness writes the http.Header the way the case line says (Add vs raw assignment)",
 ]
-RULE = ("modes tell (coalesced) / stell / ask / bask, maxBatch 1..8, 1..6 concurrent callers x 1..4 messages, header maps of 0..4 entries with "
+RULE = ("sequences (seq): 2..7 calls of kinds ask / batch-ask / coalesced tell on one client and one OS thread, key sets shrinking, unrelated or empty; modes tell (coalesced) / stell / ask / bask, maxBatch 1..8, 1..6 concurrent callers x 1..4 messages, header maps of 0..4 entries with "
         "mixed-case, raw (non-canonical) and non-token keys, occasional multi-valued entries; non-trivial = at least one message carried a header; distinct by (case, output)")
 
 _KEYS = ["x-trace-id", "X-Trace-Id", "tenant", "Authorization", "a", "b-c", "x_y", "k.1", "UPPER-CASE", "mIxEd-cAsE-key", "traceparent", "x-b3-spanid", "9lives", "a-", "-a", "a--b"]
@@ -70,8 +71,49 @@ def _gen_one(rng, big=False):
     return "prop %s %d %d | %s" % (mode, mb, reps, " | ".join(_spec(rng) for _ in range(callers)))
 
 
-def _structured():
+def _subspec(rng, spec):
+    """a spec over a (often strictly smaller) subset of the keys of `spec`, with fresh values"""
+    if spec == "-":
+        return "-"
+    ents = [e for e in spec.split(",") if rng.random() < 0.5]
+    if not ents:
+        return "-"
+    out = []
+    for e in ents:
+        k = e.split("=", 1)[0]
+        out.append(k + "=" + "".join(rng.choice("abcXYZ019") for _ in range(rng.randint(1, 5))))
+    return ",".join(out)
+
+
+def _gen_seq(rng):
+    """one client, one goroutine: request-level calls and coalesced tells alternate, key sets mostly shrink"""
+    n = rng.randint(2, 7)
+    steps = []
+    cur = _spec(rng)
+    for i in range(n):
+        kind = rng.choice("aabstttt") if i else rng.choice("aabst")
+        r = rng.random()
+        if r < 0.55:
+            cur = _subspec(rng, cur)      # shrink
+        elif r < 0.8:
+            cur = _spec(rng)              # unrelated key set
+        steps.append("%s:%s" % (kind, cur))
+        if cur == "-" and rng.random() < 0.7:
+            cur = _spec(rng)
+    return "seq %d | %s" % (rng.choice([1, 2, 4, 8]), " | ".join(steps))
+
+
+def _structured_seq():
     return [
+        "seq 4 | a:x-trace=a0,x-tenant=acme | t:x-trace=t0",
+        "seq 4 | a:x-trace=a0,x-tenant=acme | t:-",
+        "seq 2 | t:a=1,b=2 | a:a=3 | t:b=4 | s:- | t:- | b:a=5,c=6 | t:c=7",
+        "seq 1 | b:~raw-key=1,K=2 | t:K=3 | t:~raw-key=4",
+    ]
+
+
+def _structured():
+    return _structured_seq() + [
         "prop tell 2 3 | x-trace-id=a1,Tenant=t | - | ~x-raw=r1,K=v1",
         "prop tell 1 4 | a=1 | a=2 | a=3 | a=4 | a=5 | a=6",
         "prop tell 8 4 | a=1 | a=2 | a=3 | a=4 | a=5 | a=6",
@@ -84,12 +126,13 @@ def _structured():
 
 def gen_cases(rng, tier):
     n = 120 if tier == "quick" else 2500
-    return _structured() + [_gen_one(rng) for _ in range(n)]
+    m = 50 if tier == "quick" else 1000
+    return _structured() + [_gen_one(rng) for _ in range(n)] + [_gen_seq(rng) for _ in range(m)]
 
 
 def search_cases(rng, tier):
     n = 300 if tier == "quick" else 3000
-    return _structured() + [_gen_one(rng, big=(i % 4 == 0)) for i in range(n)]
+    return _structured() + [_gen_one(rng, big=(i % 4 == 0)) for i in range(n)] + [_gen_seq(rng) for _ in range(n // 2)]
 
 
 def compare(case, impl, model):
@@ -126,8 +169,10 @@ def oracle(case, impl, judge):
     if judge is not None:
         return None if judge.startswith("ok") else judge
     parts = case.split("|")
-    reps = int(parts[0].split()[3])
-    specs = parts[1:]
+    if parts[0].split()[0] == "seq":
+        reps, specs = 1, [p.strip()[2:] for p in parts[1:]]
+    else:
+        reps, specs = int(parts[0].split()[3]), parts[1:]
     toks = impl.split()
     if len(toks) != len(specs) * reps:
         return "bad %d messages observed, %d sent" % (len(toks), len(specs) * reps)
@@ -153,6 +198,9 @@ def is_trivial(case, impl):
 
 
 def tag(case, impl):
+    if case.startswith("seq"):
+        kinds = "".join(p.strip()[0] for p in case.split("|")[1:])
+        return "seq:" + ("ask-then-tell" if any(k in "abs" and "t" in kinds[i + 1:] for i, k in enumerate(kinds)) else "other")
     f = case.split("|")[0].split()
     t = [f[1], "mb" + f[2]]
     if "~" in case:
@@ -169,5 +217,5 @@ def shrink(case):
         if len(specs) > 1:
             yield "|".join([head] + specs[:i] + specs[i + 1:])
     f = head.split()
-    if int(f[3]) > 1:
+    if f[0] != "seq" and int(f[3]) > 1:
         yield "|".join([" ".join(f[:3] + [str(int(f[3]) - 1)]) + " "] + specs)
